@@ -77,6 +77,13 @@ def cases(tier, seed):
                 cs.append({'scen': 'ttsvd', 's': dict(base, rmax=[1] + [50] * (d - 1) + [1])})
                 cs.append({'scen': 'ttsvd', 's': dict(base, rmax=[1] + [3 - (k % 3) for k in range(d - 1)] + [1])})      # decreasing caps (a smaller cap behind a larger one)
                 cs.append({'scen': 'ttsvd', 's': dict(base, rmax=[1] + [1 + (k % 2) for k in range(d - 1)] + [1], rmax_np=True)})
+    # caps below the number of non-zero singular values but possibly above the rank that eps selects (a cap binds only where it is reached)
+    for shp, rms in [([3, 3], (2,)), ([4, 4], (2, 3)), ([3, 3, 3], (2,)), ([4, 3], (2,)), ([2, 4, 4], (2, 3))]:
+        dg = [[min(i, n - 1) for n in shp] for i in range(max(shp))]
+        dg = [list(t) for t in sorted(set(tuple(q) for q in dg))]
+        for rm in rms:
+            cs.append({'scen': 'ttsvd', 's': {'shape': shp, 'pattern': dg, 'rmax': rm}})
+        cs.append({'scen': 'ttsvd', 's': {'shape': shp, 'pattern': dg, 'rmax': [1] + [rms[-1]] * (len(shp) - 1) + [1], 'entry': 'numpy'}})
     # a smaller cap behind a singleton mode than in front of it (every bond's own cap counts)
     for shp, rm in [([3, 1, 3], [1, 3, 1, 1]), ([3, 1, 3], [1, 3, 2, 1]), ([3, 1, 1, 3], [1, 3, 3, 1, 1]), ([3, 1, 1, 3], [1, 3, 2, 1, 1]), ([2, 3, 1, 3], [1, 2, 3, 2, 1])]:
         dg = [[min(i, n - 1) for n in shp] for i in range(3)]
